@@ -292,7 +292,29 @@ func tmpBase() string {
 	return ""
 }
 
+// sweepStale removes world / case directories a killed run left behind.
+func sweepStale() {
+	base := tmpBase()
+	if base == "" {
+		base = os.TempDir()
+	}
+	ents, err := os.ReadDir(base)
+	if err != nil {
+		return
+	}
+	for _, e := range ents {
+		n := e.Name()
+		if len(n) < 7 || (n[:7] != "c12case" && (len(n) < 8 || n[:8] != "c12world")) {
+			continue
+		}
+		if info, err := e.Info(); err == nil && time.Since(info.ModTime()) > 3*time.Hour {
+			os.RemoveAll(filepath.Join(base, n))
+		}
+	}
+}
+
 func buildWorld(id int) (*world, error) {
+	sweepStale()
 	dir, err := os.MkdirTemp(tmpBase(), fmt.Sprintf("c12world%d-", id))
 	if err != nil {
 		return nil, err
